@@ -105,6 +105,25 @@ def run(ctx, chk):
                     "C19/reverse-reported", "cancel_pending",
                     "the reversed receipt number does not come from the pending query: %s" % show(arg)[:120],
                     "receipt from get_pending", f.sp(cr[0][0]))
+        # every receipt the query reports is reversed: from the point where the loop has taken an item, neither the next item
+        # nor a successful return is reachable without passing the reversal call (no `continue` / `break` past it)
+        from mirlite import feasible_reach
+        nx = [(bb, t) for bb, t in f.b.calls() if callee(t) == "core::iter::traits::iterator::Iterator::next" and bb in f.reach]
+        skipped = None
+        if len(nx) == 1:
+            nbb, nt = nx[0]
+            sw = f.b.blocks[nt["to"]]["term"] if nt.get("to") is not None else None
+            some_t = None
+            if sw is not None and sw["t"] == "switch":
+                some_t = dict((v_, tb) for v_, tb in sw["targets"]).get(1, sw["else"])
+            if some_t is not None:
+                region = feasible_reach(f.b, some_t, cut_blocks=[cr[0][0]])
+                ok_rets = {rb for rb, e_ in f.ret_writes() if f.classify_ret(e_) == "ok"}
+                skipped = (nbb in region) or bool(ok_rets & region)
+        chk.require(skipped is False, "C19/reverse-every-reported", "cancel_pending",
+                    "a receipt reported by the pending query can be passed over: the loop reaches its next item or a successful return "
+                    "without the reversal" if skipped else "the loop over the reported receipts was not recognised",
+                    "each item -> reversal", f.sp(cr[0][0]))
         prop = [x for bb, x in f.ret_writes() if f.classify_ret(x) in ("propagate", "err")]
         chk.require(len(prop) >= 2, "C19/pending-failures-reported", "cancel_pending",
                     "failures of the pending query / reversal are not propagated", "", f.sp(), nontrivial=False)
